@@ -212,10 +212,10 @@ def handle (j : Json) : R Json := do
         let tt := taggedTrace { env := unbound } (sstmts c.st)
         let consts := ag.apps.filterMap (fun a => match a with | .constant _ o => some o | _ => none)
         let users := consts.map (fun cst =>
-          let calls := sched.filter (fun i => match ag.apps[i]? with | some a => Adapt.isCallOf cst a | none => false)
-          let allCalls := (List.range ag.apps.length).filter (fun i => match ag.apps[i]? with | some a => Adapt.isCallOf cst a | none => false)
+          let calls := sched.filter (callsTracer ag cst)
+          let allCalls := (List.range ag.apps.length).filter (callsTracer ag cst)
           Json.mkObj [("const", jNat cst), ("calls", jNats calls), ("all_calls", jNats allCalls),
-            ("reachable", Json.bool (allCalls.all (fun i => (Factory.reachable fg).contains i))),
+            ("reachable", Json.bool (callsReachable ag fg cst)),
             ("stmt_counts", jNats (calls.map (fun i => (c.st.body.filter (fun q => q.2.src == some i)).length))),
             ("events", jArr ((tt.filter (byCallOf ag cst)).map eventJson))])
         pure (Json.mkObj (base ++ view ++ common g c cfg.unaryParens ++
